@@ -664,24 +664,40 @@ def corpus_witnesses(r):
 
 
 def _covered_functions():
-    """the anchored functions by name, plus every PRIVATE helper (leading underscore) of the same module / class, taken
-    dynamically, so that extracting a helper out of an anchored function keeps its lines under measurement"""
+    """the anchored functions by name, plus every function of the same module / class they (transitively) CALL, found
+    dynamically from the names their code refers to, so that extracting a helper out of an anchored function keeps its
+    lines under measurement (and helpers of functions C04 does not anchor stay out)"""
     import inspect
     from pyins import error_model
     from pyins.error_model import InsErrorModel
+
+    def unwrap(f):
+        f = f.__func__ if isinstance(f, (classmethod, staticmethod)) else f
+        return f if inspect.isfunction(f) and f.__module__ == error_model.__name__ else None
+
+    def names_of(code):
+        out = set(code.co_names)
+        for c in code.co_consts:
+            if hasattr(c, 'co_names'):
+                out |= names_of(c)
+        return out
     named = {'InsErrorModel.system_matrices': InsErrorModel.system_matrices,
              'InsErrorModel.transform_to_output': InsErrorModel.transform_to_output,
              'InsErrorModel.transform_to_internal': InsErrorModel.transform_to_internal,
              'propagate_errors': error_model.propagate_errors}
-    for nm, f in vars(error_model).items():
-        if nm.startswith('_') and not nm.startswith('__') and inspect.isfunction(f) and \
-                f.__module__ == error_model.__name__:
-            named[nm] = f
-    for nm, f in vars(InsErrorModel).items():
-        if nm.startswith('_') and not nm.startswith('__'):
-            g = f.__func__ if isinstance(f, (classmethod, staticmethod)) else f
-            if inspect.isfunction(g):
-                named['InsErrorModel.' + nm] = g
+    todo = list(named.values())
+    seen = set()
+    while todo:
+        f = unwrap(todo.pop())
+        if f is None or f in seen:
+            continue
+        seen.add(f)
+        for nm in names_of(f.__code__):
+            for owner, prefix in ((vars(error_model), ''), (vars(InsErrorModel), 'InsErrorModel.')):
+                g = unwrap(owner.get(nm)) if nm in owner else None
+                if g is not None and g not in seen and not nm.startswith('__'):
+                    named.setdefault(prefix + nm, g)
+                    todo.append(g)
     return named
 
 
